@@ -11,8 +11,10 @@ import c08
 
 INTROSPECTION = "{ __schema { queryType { name } types { name kind } } __typename }"
 
+import re
+def _msg(m): return re.sub(r"0x[0-9a-fA-F]+", "0x?", m or "")
 def canon(resp):
-    return json.dumps({"data": enc(resp.get("data")), "errors": sorted(json.dumps([e.get("path"), e.get("message"), sorted([l["line"], l["column"]] for l in e.get("locations") or [])]) for e in resp.get("errors") or [])}, sort_keys=True)
+    return json.dumps({"data": enc(resp.get("data")), "errors": sorted(json.dumps([e.get("path"), _msg(e.get("message")), sorted([l["line"], l["column"]] for l in e.get("locations") or [])]) for e in resp.get("errors") or [])}, sort_keys=True)
 
 def explore(tier, seed):
     rng = random.Random(seed * 17 + 15)
@@ -67,10 +69,12 @@ def explore(tier, seed):
             stats["max_in_flight"] = max(stats["max_in_flight"], inflight)
             if inflight >= 2: stats["nontrivial"].add(hashlib.sha256(json.dumps([idxs, si, fi]).encode()).hexdigest()[:16])
             pr = []
+            diffs = []
             for j, i in enumerate(idxs):
                 got = canon(results[j][1]) if results[j][0] == "ok" else f"raised {type(results[j][1]).__name__}"
                 if got != solo_fresh[i]:
                     pr.append(f"request #{j} answered differently in flight with {n - 1} other request(s) than alone")
+                    diffs.append({"request": j, "alone": json.loads(solo_fresh[i]) if solo_fresh[i].startswith("{") else solo_fresh[i], "in_flight": json.loads(got) if got.startswith("{") else got})
             # contexts must not leak: every resolver call carries the context of its own request
             for call in b.calls:
                 ctx = call.get("ctx")
@@ -82,7 +86,7 @@ def explore(tier, seed):
             got2 = canon(r2[1]) if r2[0] == "ok" else f"raised {type(r2[1]).__name__}"
             if got2 != solo_fresh[probe]: pr.append("a request issued afterwards behaves differently from the same request on a fresh engine")
             if pr:
-                stats["problems"].append({"what": pr[:4], "family": [{"query": pool[i][0], "operation_name": pool[i][1], "variables": pool[i][2]} for i in idxs], "sdl": print_sdl(b.model), "env": renv})
+                stats["problems"].append({"what": pr[:4], "diffs": diffs[:2], "family": [{"query": pool[i][0], "operation_name": pool[i][1], "variables": pool[i][2]} for i in idxs], "sdl": print_sdl(b.model), "env": renv})
             if len(stats["samples"]) < 3 and inflight >= 2:
                 stats["samples"].append({"in_flight": n, "queries": [pool[i][0][:200] for i in idxs], "interleaving_steps": len(trace)})
     loop.close()
